@@ -42,12 +42,16 @@ EXTENDS Integers, Sequences, FiniteSets, TLC, Json, SequencesExt
 
 CONSTANTS Ctxs,          \* context names (a sequence, e.g. <<"c1","c2">>)
           Modes,         \* modes a context may be created in
-          Scripts, Classes, BlockHandles, FixedHandles,
+          Scripts, Classes,
+          BlockHandles,  \* once handles made by templ.NewOnceHandle() (unique id), used with a block
+          ZeroHandles,   \* zero-value once handles (var h templ.OnceHandle, &templ.OnceHandle{}): distinct variables, all with id 0
+          FixedHandles,  \* handles made by templ.NewOnceHandle(templ.WithComponent(c))
           RegSeq,        \* classes registered with the CSS middleware, in registration order
           OnSeqs,        \* script sequences used by ElementWithOnAttrs
           ClassExprs,    \* class expressions: [cont |-> container, items |-> Seq([f, k, b])]
           Repaired,      \* subset of {"KvCompName", "SliceKVRules"}
           Variant,       \* "asCoded" | "sharedKeys" | "noRecord" | "packageState" | "mwInlines" | "nonceForgets"
+                         \* | "onceKeyedById" (rendered handles remembered by OnceHandle.id instead of by address)
           MaxNonces,     \* how often WithNonce may be applied to one context
           NonceCtxs,     \* the contexts WithNonce may be applied to (emission B: one of the two, all mode pairs are explored)
           MaxSteps,
@@ -66,6 +70,9 @@ Idx(x) == IF x \in {"s1", "k1"} THEN 1 ELSE 2
 \* runtime.go keeps scripts and classes in ONE map, told apart by the key prefix
 Key(x) == IF x \in Scripts THEN <<IF Variant = "sharedKeys" THEN "id" ELSE "script", Idx(x)>>
           ELSE IF x \in Classes THEN <<IF Variant = "sharedKeys" THEN "id" ELSE "class", Idx(x)>>
+          \* runtime.go: onceHandles is keyed by the handle's ADDRESS; the id field only exists so that distinct
+          \* handles have distinct addresses, and it is 0 for every handle not made by NewOnceHandle
+          ELSE IF x \in ZeroHandles /\ Variant = "onceKeyedById" THEN <<"once", "id0">>
           ELSE <<"once", x>>
 Tok(t, x) == [t |-> t, x |-> x]
 
@@ -107,7 +114,7 @@ Tags(e) == (IF \E j \in 1..Len(e.items) : e.items[j].f = "kvComp" /\ "KvCompName
 
 -----------------------------------------------------------------------------
 (* The step properties (C12).  before = registry of the context when the step starts. *)
-Violations(toks, before, must, c) ==
+Violations(toks, before, must, mustbody, c) ==
     LET defOrBody(t) == t.t \in {"def", "body"}
         I == 1..Len(toks)
     IN  (IF \E i \in I : defOrBody(toks[i]) /\ (toks[i].x \in before \/ \E j \in 1..(i - 1) : toks[j] = toks[i])
@@ -116,6 +123,8 @@ Violations(toks, before, must, c) ==
                               /\ ~(\E j \in 1..(i - 1) : toks[j] = Tok("def", toks[i].x))
                               /\ ~(mode[c] = "mw" /\ toks[i].x \in Reg)          \* served by the stylesheet endpoint instead
               THEN {"DefBeforeFirstUse"} ELSE {})
+        \* a once handle used here for the first time in this context's document renders its content now
+        \cup (IF \E h \in mustbody : h \notin before /\ ~\E i \in I : toks[i] = Tok("body", h) THEN {"DefBeforeFirstUse"} ELSE {})
         \cup (IF \E x \in must : ~\E i \in I : toks[i] = Tok("use", x) THEN {"EveryUseHasCallOrName"} ELSE {})
         \cup (IF mode[c] = "mw" /\ \E i \in I : toks[i].t = "def" /\ toks[i].x \in Reg THEN {"MiddlewareNeverInlined"} ELSE {})
 DefinedBy(toks) == {toks[j].x : j \in {i \in 1..Len(toks) : toks[i].t \in {"def", "body"}}}
@@ -134,7 +143,9 @@ Init == /\ mode \in [CtxSet -> Modes]
 
 \* one use in context c: tokens toks, keys rec recorded
 Use(c, name, args, toks, rec, must, tags) ==
-    LET before == defd[c] IN
+    LET before == defd[c]
+        mustbody == IF args.h = "" THEN {} ELSE {args.h}
+    IN
     /\ n < MaxSteps
     /\ n' = n + 1
     /\ emitted' = IF Variant = "packageState"
@@ -143,8 +154,8 @@ Use(c, name, args, toks, rec, must, tags) ==
     /\ defd' = [defd EXCEPT ![c] = IF mode[c] = "fresh" THEN {} ELSE @ \cup DefinedBy(toks)]
     /\ UNCHANGED <<mode, nonce>>
     /\ lbl' = [a |-> name, c |-> c, args |-> args, toks |-> toks, before |-> SetToSeq(before),
-               must |-> SetToSeq(must), tags |-> SetToSeq(tags),
-               viol |-> SetToSeq(Violations(toks, before, must, c)), nonce |-> nonce[c]]
+               must |-> SetToSeq(must), mustbody |-> SetToSeq(mustbody), tags |-> SetToSeq(tags),
+               viol |-> SetToSeq(Violations(toks, before, must, mustbody, c)), nonce |-> nonce[c]]
 
 NoArgs == [s |-> "", S |-> <<>>, e |-> [cont |-> "", items |-> <<>>], k |-> "", h |-> ""]
 
@@ -179,7 +190,7 @@ StylesheetRequest ==
     /\ n < MaxSteps /\ n' = n + 1
     /\ UNCHANGED <<mode, emitted, defd, nonce>>
     /\ lbl' = [a |-> "StylesheetRequest", c |-> "", args |-> NoArgs, toks |-> [j \in 1..Len(RegSeq) |-> Tok("served", RegSeq[j])],
-               before |-> <<>>, must |-> <<>>, tags |-> <<>>, viol |-> <<>>, nonce |-> 0]
+               before |-> <<>>, must |-> <<>>, mustbody |-> <<>>, tags |-> <<>>, viol |-> <<>>, nonce |-> 0]
 
 \* runtime.go: WithNonce -- getContext (initialises an uninitialised context), v.nonce = nonce on the context value the
 \* whole render shares: what has been emitted, what the document holds and what the middleware registered stay as they are.
@@ -193,14 +204,14 @@ SetNonce(c) ==
     /\ IF Variant = "nonceForgets" THEN emitted' = [emitted EXCEPT ![c] = {}] /\ UNCHANGED defd
        ELSE UNCHANGED <<emitted, defd>>
     /\ lbl' = [a |-> "SetNonce", c |-> c, args |-> NoArgs, toks |-> <<>>, before |-> SetToSeq(defd[c]),
-               must |-> <<>>, tags |-> <<>>, viol |-> <<>>, nonce |-> nonce[c] + 1]
+               must |-> <<>>, mustbody |-> <<>>, tags |-> <<>>, viol |-> <<>>, nonce |-> nonce[c] + 1]
 
 Next == \/ \E c \in CtxSet :
             \/ \E s \in Scripts : RenderScriptComponent(c, s)
             \/ \E S \in OnSeqs : ElementWithOnAttrs(c, S)
             \/ \E e \in ClassExprs : ElementWithClasses(c, e)
             \/ \E k \in Classes, s \in Scripts : ElementWithClassAndOn(c, k, s)
-            \/ \E h \in BlockHandles : Once(c, "OnceWithBlock", h)
+            \/ \E h \in BlockHandles \cup ZeroHandles : Once(c, "OnceWithBlock", h)
             \/ \E h \in FixedHandles : Once(c, "OnceWithComponent", h)
             \/ SetNonce(c)
         \/ StylesheetRequest
